@@ -29,6 +29,8 @@ def run_histories(sc, tier, verdict):
     # the same kinds of history against a server on the IPv6 loopback (peer addresses print and parse differently there)
     extra.append({"n": 2, "hist": ["valid", "bad", "internal", "close", "valid", "bad", "close", "valid"], "ip6": True})
     extra.append({"n": 1, "hist": ["valid", "valid"], "ip6": True})
+    # extreme but satisfiable answers among ordinary requests (length of the file times number of ranges beyond 2^31)
+    extra.append({"n": 2, "hist": ["valid", "heavy", "valid", "bad", "heavy", "valid"]})
     with open(cases, "a") as f:
         for e in extra:
             f.write(json.dumps(e) + "\n")
